@@ -43,31 +43,37 @@ def check(ctx):
     ctx.assume("X is not a label source: it is handed to the wrapped estimator untouched")
     prog = ctx.prog
     eps = entry_points(prog)
+    n_eps, n_san = label_sinks(ctx, "R12.1", eps)
+    ctx.floor("R12.1", "public entry points analysed", n_eps, 30)
+    ctx.floor("R12.1", "sanitiser sites on label sources", n_san, 9)
+    r122(ctx)
+
+
+def label_sinks(ctx, rule, eps):
+    """Run the label-provenance analysis from each entry point; one obligation per entry point / sink."""
+    prog = ctx.prog
     A = Analysis(ctx, max_depth=6)
     n_eps = n_san = 0
     for fq, cls in eps:
-        fi = prog.func(fq)
+        prog.func(fq)
         r = A.run(fq, cls_ctx=cls)
         n_eps += 1
         sources = {t: name for name, t in r.params.items() if name in DATA_PARAM_NAMES}
         sinks, dom = find_sinks(r, sources)
-        # sanitiser sites: calls of position-only conversions on a source
         for e in r.events:
             if e.kind == "call" and e.data.get("callee") in ("numpy.asarray", "numpy.array", "builtins.list",
                                                              "sklearn.utils.validation.check_array") \
                     and e.data["args"] and dom.val(e.data["args"][0])[0] == USER:
                 n_san += 1
         if not sinks:
-            ctx.ob("R12.1", fq, None, True, f"{fq.split(':')[1]}: {len(sources)} label sources, {len(r.events)} events "
+            ctx.ob(rule, fq, None, True, f"{fq.split(':')[1]}: {len(sources)} label sources, {len(r.events)} events "
                    "inspected, no label sink reached", construct=f"{fq.split(':')[1]} label sinks")
         for e, s, why in sinks:
-            ctx.ob("R12.1", e.func, e.node, False, f"(entry {fq.split(':')[1]}) {why}: {show(s, maxdepth=3)[:140]}",
+            ctx.ob(rule, e.func, e.node, False, f"(entry {fq.split(':')[1]}) {why}: {show(s, maxdepth=3)[:140]}",
                    construct=_construct(e, s))
         if dom.passthrough_unanalysed:
             ctx.note(f"{fq}: {dom.passthrough_unanalysed} in-repo calls beyond the inlining depth treated as pass-through")
-    ctx.floor("R12.1", "public entry points analysed", n_eps, 30)
-    ctx.floor("R12.1", "sanitiser sites on label sources", n_san, 9)
-    r122(ctx)
+    return n_eps, n_san
 
 
 def _construct(e, s):
